@@ -152,6 +152,20 @@ def ctl_rw_close_wrong_polarity(rw):
                "\tcloser, ok := w.z.(io.Closer)\n\tif ok {\n\t\treturn nil\n\t}\n\treturn closer.Close()\n")
 
 
+_RW_PIPE = "\t\t\tpr, pw := io.Pipe()\n\t\t\tz := &writer{pw, sync.WaitGroup{}, false, nil}\n\t\t\tz.wg.Add(1)\n\t\t\tgo func() {\n\t\t\t\tdefer z.wg.Done()\n\t\t\t\tdefer pr.Close()\n\t\t\t\tif err := minifier(w.m, w.ResponseWriter, pr, params); err != nil {\n\t\t\t\t\tz.err = err\n\t\t\t\t}\n\t\t\t}()\n\t\t\tw.z = z\n"
+_RW_OLD = "\t\tif _, params, minifier := w.m.Match(w.mediatype); minifier != nil {\n" + _RW_PIPE + "\t\t} else {\n\t\t\tw.z = w.ResponseWriter\n\t\t}\n"
+
+
+def rw_match_split_inverted(rw):
+    rw.in_func("minify.go", r"\(w \*responseWriter\) Write\(", _RW_OLD,
+               "\t\t_, params, minifier := w.m.Match(w.mediatype)\n\t\tif minifier == nil {\n\t\t\tw.z = w.ResponseWriter\n\t\t} else {\n" + _RW_PIPE + "\t\t}\n")
+
+
+def ctl_rw_match_arms_swapped(rw):
+    # passes through when a minifier is registered
+    rw.in_func("minify.go", r"\(w \*responseWriter\) Write\(", "\t\tif _, params, minifier := w.m.Match(w.mediatype); minifier != nil {\n", "\t\tif _, params, minifier := w.m.Match(\"\"); minifier != nil {\n")
+
+
 T = ["c12_skel"]
 REWRITES = [
     R("c12-pipe-vars-renamed", T, "invariant", "rename-local", "Writer/Reader: pr, pw renamed", pipe_vars_renamed, tests=["."]),
@@ -185,4 +199,6 @@ REWRITES = [
     R("c12-rw-close-early-return", T, "invariant", "equivalent-form", "responseWriter.Close: io.Closer assertion with an early return (harmless H5-r2)", rw_close_early_return, tests=["."]),
     R("c12-ctl-reader-close-with-error-nil", T, "changes", "control", "Reader goroutine drops the error and closes with CloseWithError(nil)", ctl_reader_close_with_error_nil),
     R("c12-ctl-rw-close-wrong-polarity", T, "changes", "control", "responseWriter.Close: early return with the wrong polarity", ctl_rw_close_wrong_polarity),
+    R("c12-rw-match-split-inverted", T, "invariant", "invert-if", "responseWriter.Write: Match as its own statement, pass-through arm first (harmless H5-r2)", rw_match_split_inverted, tests=["."]),
+    R("c12-ctl-rw-match-empty-mediatype", T, "changes", "control", "responseWriter.Write matches the empty mediatype instead of the response's", ctl_rw_match_arms_swapped),
 ]
